@@ -402,12 +402,40 @@ func runC10(c *fw.Ctx) {
 // c10Placement checks that every native cell of the standalone is held by exactly one partition
 // with the same values and that redundant followers agree. Returns how many partitions hold data.
 func c10Placement(c *fw.Ctx, e *c10Env, desc interface{}) int {
+	// A disagreement is only reported when it is still there after three more looks 3s apart: a follower may have
+	// been handed everything (barrier visible) and still be busy applying on a loaded machine, while a point that
+	// is really lost or misplaced stays that way.
+	for attempt := 0; ; attempt++ {
+		found := false
+		var fsig, fformat string
+		var fdata interface{}
+		var fargs []interface{}
+		n := c10PlacementOnce(c, e, desc, func(sig string, data interface{}, format string, args ...interface{}) {
+			if !found {
+				found, fsig, fdata, fformat, fargs = true, sig, data, format, args
+			}
+		})
+		if !found {
+			if attempt > 0 {
+				c.Obs("placement_disagreements_that_went_away", 1)
+			}
+			return n
+		}
+		if attempt >= 3 {
+			c.ViolateData(fsig, fdata, fformat+" (unchanged over four looks, 9s)", fargs...)
+			return n
+		}
+		time.Sleep(3 * time.Second)
+	}
+}
+
+func c10PlacementOnce(c *fw.Ctx, e *c10Env, desc interface{}, viol func(sig string, data interface{}, format string, args ...interface{})) int {
 	withData := map[int]bool{}
 	for ti := range e.specs {
 		tbl := e.specs[ti].Name
 		solo := e.solo.Query("SELECT * FROM "+tbl, true)
 		if solo.Failed() {
-			c.Violate("c10-query-error", "standalone dump failed: %s", solo.ErrString())
+			viol("c10-query-error", nil, "standalone dump failed: %s", solo.ErrString())
 			return 0
 		}
 		seen := map[string]int{}
@@ -419,7 +447,7 @@ func c10Placement(c *fw.Ctx, e *c10Env, desc interface{}) int {
 				}
 				res := dbh.RunQuery(ctxBackground(), f.DB, "SELECT * FROM "+tbl, true, nil)
 				if res.Failed() {
-					c.Violate("c10-query-error", "follower dump failed: %s", res.ErrString())
+					viol("c10-query-error", nil, "follower dump failed: %s", res.ErrString())
 					return 0
 				}
 				if first == nil {
@@ -433,18 +461,18 @@ func c10Placement(c *fw.Ctx, e *c10Env, desc interface{}) int {
 					for i := range res.Rows {
 						sr, ok := si[res.Rows[i].ID()]
 						if !ok {
-							c.ViolateData("c10-follower-extra-row", desc, "table %s: follower of partition %d holds row %s %v that the standalone database does not have", tbl, p, res.Rows[i].ID(), res.Rows[i].Vals)
+							viol("c10-follower-extra-row", desc, "table %s: follower of partition %d holds row %s %v that the standalone database does not have", tbl, p, res.Rows[i].ID(), res.Rows[i].Vals)
 							return 0
 						}
 						for vi := range sr.Vals {
 							if !ref.FloatEq(sr.Vals[vi], res.Rows[i].Vals[res.Field(solo.Fields[vi])], 1e-9) {
-								c.ViolateData("c10-follower-value", desc, "table %s partition %d row %s: field %s = %v on the follower, %v on the standalone (a cell split over partitions or applied twice)", tbl, p, res.Rows[i].ID(), solo.Fields[vi], res.Rows[i].Vals[res.Field(solo.Fields[vi])], sr.Vals[vi])
+								viol("c10-follower-value", desc, "table %s partition %d row %s: field %s = %v on the follower, %v on the standalone (a cell split over partitions or applied twice)", tbl, p, res.Rows[i].ID(), solo.Fields[vi], res.Rows[i].Vals[res.Field(solo.Fields[vi])], sr.Vals[vi])
 								return 0
 							}
 						}
 					}
 				} else if diff := dbh.Diff(first, res, 1e-9); diff != "" {
-					c.ViolateData("c10-replicas-differ", desc, "table %s: redundant followers %d and %d of partition %d hold different contents: %s", tbl, reps[0].ID, reps[ri].ID, p, diff)
+					viol("c10-replicas-differ", desc, "table %s: redundant followers %d and %d of partition %d hold different contents: %s", tbl, reps[0].ID, reps[ri].ID, p, diff)
 					return 0
 				}
 			}
@@ -452,7 +480,7 @@ func c10Placement(c *fw.Ctx, e *c10Env, desc interface{}) int {
 		for i := range solo.Rows {
 			id := solo.Rows[i].ID()
 			if seen[id] != 1 {
-				c.ViolateData("c10-cell-not-on-exactly-one-partition", desc, "table %s (partitionBy %v): cell %s of the standalone database is held by %d partitions", tbl, e.partBy[ti], id, seen[id])
+				viol("c10-cell-not-on-exactly-one-partition", desc, "table %s (partitionBy %v): cell %s of the standalone database is held by %d partitions", tbl, e.partBy[ti], id, seen[id])
 				return 0
 			}
 		}
